@@ -118,6 +118,9 @@ def two_stage(ctx, i):
     if any(r['exc'] for r in r1):
         ctx.violation('C16:stopped-run-raised', {'exception': [r['exc'] for r in r1]}, case)
         return
+    if getattr(b1, 'modified_thresholds', None):
+        ctx.violation('C16:threshold-object-modified-by-the-run', {'thresholds': b1.modified_thresholds[:2]}, case)
+        return
     ctx.count('cases')
     ctx.count('evaluations')
     ctx.count('two_stage_cases')
@@ -341,6 +344,11 @@ def one(ctx, i):
     ex1 = [r['exc'] for r in r1 if r['exc']]
     if ex1:
         ctx.violation('C16:stopped-run-raised', {'exception': ex1, 'stop': sp['stop']}, case)
+        return
+    ctx.count('threshold_objects_inspected_after_the_run', len(getattr(b1, 'thresholds', [])))
+    if getattr(b1, 'modified_thresholds', None):
+        # "the sensor reading compared with the threshold": the threshold is the quantity the user wrote, before and after
+        ctx.violation('C16:threshold-object-modified-by-the-run', {'stop': sp['stop'], 'thresholds': b1.modified_thresholds[:2]}, case)
         return
     ctx.count('cases')
     ctx.count('evaluations')
